@@ -70,6 +70,9 @@ def render(toks, seed, case='lower', layout='mixed', keep=None):
         ec = eo - text.rfind('\n', 0, eo) - 1
         tokpos.append({'p': True, 'sl': sl, 'sc': sc, 'el': sl, 'ec': ec, 'so': so, 'eo': eo})
         line += word.count('\n')
+    # what follows the last token: nothing, white space, or a comment with or without a final line break
+    if layout != 'plain':
+        text += rnd.choice(['', '', ' ', '\n', '\t', ' // end', ' // end\n', ' /* end */', '\n\n// end of action  ', ' //'])
     return text, tokpos
 
 
